@@ -109,6 +109,41 @@ def run_view(name, code):
         return f'rejected: {e.args[:3]}'
 
 
+def run_view_twice(name1, code1, name2, code2):
+    """One expression object matched, edited in place (name and code replaced), matched again: the verdict is that of the edited definition."""
+    from pytezos.michelson.sections.view import ViewSection
+
+    expr = {'prim': 'view', 'args': [{'string': name1}, UNIT, UNIT, code1]}
+    try:
+        ViewSection.match(expr)
+    except Exception:  # noqa
+        pass
+    expr['args'][0]['string'] = name2
+    expr['args'][3] = code2
+    try:
+        ViewSection.match(expr)
+        return 'accepted'
+    except Exception as e:  # noqa
+        return f'rejected: {e.args[:3]}'
+
+
+def via_interface(name, code):
+    """The same definition inside a whole script loaded through ContractInterface.from_micheline."""
+    from pytezos.contract.interface import ContractInterface
+
+    script = [{'prim': 'parameter', 'args': [UNIT]}, {'prim': 'storage', 'args': [UNIT]},
+              {'prim': 'code', 'args': [[{'prim': 'CDR'}, {'prim': 'NIL', 'args': [{'prim': 'operation'}]}, {'prim': 'PAIR'}]]},
+              {'prim': 'view', 'args': [{'string': name}, UNIT, UNIT, code]}]
+    try:
+        ContractInterface.from_micheline(script)
+        return 'accepted'
+    except Exception as e:  # noqa
+        return f'rejected: {type(e).__name__}: {str(e)[:80]}'
+
+
+RESERVED_BY_INTERFACE = ('default', 'storage', 'parameter', 'views', 'using', 'context', 'program', 'entrypoints', 'script', 'originate', 'address', 'shell', 'key')
+
+
 def _decode_code(P, get):
     op = LEAVES[get('op', len(LEAVES))]
     k = get('depth', P['depth'] + 1)
@@ -173,7 +208,17 @@ def conc_name(P, w):
     name = _name(LENGTHS[n] if n < len(LENGTHS) and not P.get('raw_n') else n, int(w['pos']), int(w['ch']))
     exp_reject = len(name) > 31 or any(c not in ALLOWED for c in name)
     got = run_view(name, [{'prim': 'DROP'}, {'prim': 'UNIT'}])
-    return {'ok': (got != 'accepted') == exp_reject, 'name': name, 'observed': got, 'expected': 'rejected' if exp_reject else 'accepted'}
+    ok = (got != 'accepted') == exp_reject
+    if ok:
+        # the same verdict when the expression object was matched before with another (valid) definition and then edited in place
+        again = run_view_twice('ok', [{'prim': 'DROP'}, {'prim': 'UNIT'}], name, [{'prim': 'DROP'}, {'prim': 'UNIT'}])
+        if (again != 'accepted') != exp_reject:
+            return {'ok': False, 'name': name, 'observed': again + ' (second match of an expression edited in place)', 'expected': 'rejected' if exp_reject else 'accepted'}
+    if ok and not exp_reject and name and name not in RESERVED_BY_INTERFACE:
+        wi = via_interface(name, [{'prim': 'DROP'}, {'prim': 'UNIT'}])
+        if wi != 'accepted':
+            return {'ok': False, 'name': name, 'observed': wi + ' (through ContractInterface.from_micheline)', 'expected': 'accepted'}
+    return {'ok': ok, 'name': name, 'observed': got, 'expected': 'rejected' if exp_reject else 'accepted'}
 
 
 def obligations(tier):
